@@ -26,7 +26,8 @@ VARIABLES l,      \* next trace line
           prog,   \* [id, fam] of the current program
           from,   \* handle whose written bytes feed the current stream (0: none)
           contig, \* the current stream is delivered without fragmentation or fault
-          enc,    \* handle -> [o, bytes]: last encoding and the state it was made in
+          enc,    \* handle -> [o, bytes, clean]: last encoding, the model state it was made in, and whether no event
+                  \*   has named the handle since
           memo,   \* frame -> outcome of its first decode in this program
           diag    \* handle -> [string, dump] of the last Diag
 
@@ -88,6 +89,9 @@ WFCheck(t, o, obs) ==
 (***************************************************************************)
 KeepStream == UNCHANGED svars
 KeepAux == UNCHANGED <<from, contig, enc, memo, diag>>
+(* the event names handle h: its last encoding no longer stands for an untouched packet *)
+Touch(h) == enc' = IF h \in DOMAIN enc THEN [enc EXCEPT ![h].clean = FALSE] ELSE enc
+KeepAuxTouch(h) == UNCHANGED <<from, contig, memo, diag>> /\ Touch(h)
 
 EvReset(e) ==
   /\ prog' = [id |-> e.prog, fam |-> e.fam]
@@ -104,7 +108,7 @@ EvNew(e) ==
                                /\ WFCheck(t, NewObs(t), e.obs))
      ELSE Put(e.h, [t |-> t, o |-> IF Has(e, "obs") THEN Adopt(t, e.obs) ELSE NewObs(t)])   \* zero value: adopted
   /\ Bystanders(e, e.h)
-  /\ KeepStream /\ KeepAux /\ UNCHANGED prog
+  /\ KeepStream /\ KeepAuxTouch(e.h) /\ UNCHANGED prog
 
 EvPub(e) ==
   LET o == PubObs(e.args[1], e.args[2], e.args[3]) IN
@@ -112,7 +116,7 @@ EvPub(e) ==
   /\ (Has(e, "obs") => /\ NoteIf(ObsDiff(o, e.obs) # {}, "C12", "Pub does not report its arguments", [keys |-> ObsDiff(o, e.obs)])
                        /\ WFCheck(3, o, e.obs))
   /\ Bystanders(e, e.h)
-  /\ KeepStream /\ KeepAux /\ UNCHANGED prog
+  /\ KeepStream /\ KeepAuxTouch(e.h) /\ UNCHANGED prog
 
 EvCall(e) ==
   LET h == e.h IN
@@ -126,10 +130,10 @@ EvCall(e) ==
                   /\ pool' = [pool EXCEPT ![h].o = Adopt(t, e.obs)]
           /\ (Has(e, "obs") => WFCheck(t, o2, e.obs))
           /\ Bystanders(e, h)
-          /\ KeepStream /\ KeepAux /\ UNCHANGED prog
+          /\ KeepStream /\ KeepAuxTouch(h) /\ UNCHANGED prog
   ELSE /\ Note("SPEC", "call not known to the model", [m |-> e.m])
        /\ pool' = IF h \in DOMAIN pool /\ Has(e, "obs") THEN [pool EXCEPT ![h].o = Adopt(pool[h].t, e.obs)] ELSE pool
-       /\ KeepStream /\ KeepAux /\ UNCHANGED prog
+       /\ KeepStream /\ KeepAuxTouch(h) /\ UNCHANGED prog
 
 (* WriteTo: one frame, truthful count (C10); a valid frame carrying the model *)
 (* state (C02); no state change and the same bytes as before (C11)            *)
@@ -159,7 +163,11 @@ EvWriteTo(e) ==
      /\ IF good /\ h \in DOMAIN enc /\ enc[h].o = o
         THEN NoteIf(enc[h].bytes # bytes, "C11", "the same packet was written as different bytes", [a |-> enc[h].bytes, b |-> bytes])
         ELSE TRUE
-     /\ enc' = IF good THEN (h :> [o |-> o, bytes |-> bytes]) @@ enc ELSE enc
+     /\ IF good /\ h \in DOMAIN enc /\ enc[h].clean /\ enc[h].o # o
+        THEN NoteIf(enc[h].bytes # bytes, "C11", "a packet no operation has named since its last encoding is now written as different bytes",
+                    [a |-> enc[h].bytes, b |-> bytes])
+        ELSE TRUE
+     /\ enc' = IF good THEN (h :> [o |-> o, bytes |-> bytes, clean |-> TRUE]) @@ enc ELSE enc
      /\ Bystanders(e, h)
      /\ UNCHANGED <<pool, from, contig, memo, diag, prog>> /\ KeepStream
 
@@ -170,7 +178,7 @@ EvWriteN(e) ==
      THEN NoteIf(enc[h].bytes # e.outs[1], "C11", "the same packet was written as different bytes", [a |-> enc[h].bytes, b |-> e.outs[1]])
      ELSE TRUE
   /\ (Has(e, "obs") => NoteIf(ObsDiff(o, e.obs) # {}, "C11", "WriteTo changed what the accessors return", [keys |-> ObsDiff(o, e.obs)]))
-  /\ enc' = IF Len(e.outs) >= 1 THEN (h :> [o |-> o, bytes |-> e.outs[1]]) @@ enc ELSE enc
+  /\ enc' = IF Len(e.outs) >= 1 THEN (h :> [o |-> o, bytes |-> e.outs[1], clean |-> TRUE]) @@ enc ELSE enc
   /\ UNCHANGED <<pool, from, contig, memo, diag, prog>> /\ KeepStream
 
 EvStream(e) ==
@@ -221,7 +229,7 @@ EvUnmarshal(e) ==
   /\ (~e.err => ListBound(e, Len(e.data)))
   /\ pool' = (e.h :> [t |-> t, o |-> IF Has(e, "obs") THEN Adopt(t, e.obs) ELSE NewObs(t)]) @@ pool
   /\ Bystanders(e, e.h)
-  /\ UNCHANGED <<from, contig, enc, memo, diag, prog>> /\ KeepStream
+  /\ Touch(e.h) /\ UNCHANGED <<from, contig, memo, diag, prog>> /\ KeepStream
 
 (* after a divergence the model takes over what was observed, so that one defect is reported once *)
 Resync(e) == IF ~Has(e, "all") THEN pool
@@ -308,6 +316,14 @@ EvConc(e) ==
         /\ IF r.op \in {"WriteTo", "ReadPacket"} /\ r.h \in DOMAIN enc
            THEN NoteIf(~r.same \/ r.bytes # enc[r.h].bytes, "C13", "concurrent WriteTo differs from the sequential encoding", [op |-> r.op, h |-> r.h])
            ELSE TRUE
+  /\ \A j \in 1..Len(e.results) :
+        LET r == e.results[j] IN
+        IF r.op = "ReadFrame"
+        THEN LET vd == Verdict(r.frame) IN
+             /\ NoteIf(~r.same, "C13", "concurrent ReadPacket calls on private streams did not all give the same packet", [frame |-> r.frame])
+             /\ NoteIf(vd.kind = "accept" /\ (~r.ok \/ RealType(r.obs) # vd.pkt.t \/ ObsDiff(ObsOfWire(vd.pkt), r.obs) # {}), "C13",
+                       "a concurrent ReadPacket returned another packet than the sequential reading of its frame", [frame |-> r.frame])
+        ELSE TRUE
   /\ \A i, j \in 1..Len(e.results) :
         LET a == e.results[i]  b == e.results[j] IN
         IF i < j /\ a.op = "WriteTo" /\ b.op = "WriteTo" /\ a.h = b.h
@@ -405,6 +421,8 @@ ReadReturn(e) ==                                     \* k = Len(calls) + 1
   /\ IF v.kind = "accept"
      THEN IF ~e.ok THEN Note("C03", "valid frame rejected", [frame |-> g, err |-> IF Has(e, "errtext") THEN e.errtext ELSE ""])
           ELSE /\ NoteIf(rt # v.pkt.t, "C03", "valid frame decoded to another packet type", [want |-> v.pkt.t, got |-> rt])
+               /\ NoteIf(rt = v.pkt.t /\ ObsDiff(ObsOfWire(v.pkt), e.obs) \cap {"SubscriptionIDs", "SubscriptionID"} # {}, "C15",
+                         "a subscription identifier (variable byte integer) decoded to another value", [frame |-> g])
                /\ NoteIf(rt = v.pkt.t /\ ObsDiff(ObsOfWire(v.pkt), e.obs) # {}, "C03", "accessors differ from the values the frame carries",
                          [keys |-> IF rt = v.pkt.t THEN ObsDiff(ObsOfWire(v.pkt), e.obs) ELSE {}, frame |-> g])
      ELSE IF v.kind = "reject"
@@ -445,7 +463,7 @@ ReadReturn(e) ==                                     \* k = Len(calls) + 1
      IN /\ pool' = IF e.ok /\ Has(e, "obs") /\ rt >= 0 THEN (e.h :> [t |-> rt, o |-> o2]) @@ pool ELSE pool
         /\ (e.ok /\ Has(e, "obs") /\ rt >= 0 /\ v.kind = "accept" /\ rt = v.pkt.t => WFCheck(rt, ObsOfWire(v.pkt), e.obs))
         /\ enc' = IF e.ok /\ Has(e, "reenc") /\ ~e.reencFailed /\ rt >= 0
-                  THEN (e.h :> [o |-> o2, bytes |-> e.reenc]) @@ enc
+                  THEN (e.h :> [o |-> o2, bytes |-> e.reenc, clean |-> TRUE]) @@ enc
                   ELSE enc
   /\ RP_ReturnEff
   /\ k' = 0 /\ ph' = "req" /\ l' = l + 1
